@@ -152,6 +152,19 @@ def field_settings(base, rng, limit):
     rng.shuffle(cases)
     return cases[:limit]
 
+def pair_settings(base, span=16):
+    """two header fields set together: one to zero (a step, a record size), the other to a huge value (a count, a length) -
+    a loop whose step comes from the input only runs away when its count does as well"""
+    f2 = [(off, 2) for off in range(0, min(span, len(base)) - 1, 2)]
+    f4 = [(off, 4) for off in range(0, min(span, len(base)) - 3, 2)]
+    def put(d, off, n, v):
+        return d[:off] + (struct.pack('>H', v & 0xffff) if n == 2 else struct.pack('>I', v & 0xffffffff)) + d[off + n:]
+    for (o1, n1) in f2 + f4:
+        for (o2, n2) in f4:
+            if o1 + n1 > o2 and o2 + n2 > o1:
+                continue          # overlapping
+            yield put(put(base, o1, n1, 0), o2, n2, 0x7fffffff)
+
 def gen_cases(rng, tier):
     thorough = tier == 'thorough'
     B = bases(rng)
@@ -186,6 +199,10 @@ def gen_cases(rng, tier):
             i = rng.randrange(len(base))
             yield {'t': t, 'data': base[:i] + bytes([rng.randrange(256)]) + base[i + 1:]}
             yield {'t': t, 'data': base[:rng.randrange(len(base) + 1)]}
+    for t in ('mmap', 'key', 'cas', 'lctx', 'fmap', 'vwsc'):
+        if t in B and t in TARGETS:
+            for d in pair_settings(B[t], 16 if not thorough else 40):
+                yield {'t': t, 'data': d}
     for p in fixtures_lscr():
         d = open(p, 'rb').read()
         yield {'t': 'lscr', 'data': d}
